@@ -241,7 +241,12 @@ def _reducer(ctx, desc):
         rdesc = {**desc, "ops": desc["ops"][: oi + 1]}
         k = op["op"]
         n_since = len(orc.vals)
-        N = r.data_.recordsz
+        N = max(math.ceil(desc["duration"] / dt) + int(bool(desc["inclusive"])), 1)      # the documented number of slots
+        if r.data_.recordsz != N or r.data_.inclusive != bool(desc["inclusive"]) or r.inplace != bool(desc["inplace"]):
+            return ctx.violation(f"{kind}.configuration_not_the_constructor_arguments",
+                                 f"record of {r.data_.recordsz} slots, inclusive={r.data_.inclusive}, inplace={r.inplace}; constructed with "
+                                 f"duration={desc['duration']}, dt={dt}, inclusive={desc['inclusive']}, inplace={desc['inplace']} ({N} slots)", rdesc)
+        ctx.count("configuration_checks")
         try:
             if k == "clear":
                 r.clear(keepshape=op["keepshape"])
